@@ -21,8 +21,14 @@ type world struct {
 	dir  string
 	sent []sentMsg
 	drop func(from int, m csim.Msg, to int) bool
-	// priors[i][h] = node i's state after height h (what block h+1 must extend)
-	priors map[int]map[int64]prior
+	// priors[i][h] = node i's state after height h (what block h+1 must extend).  The validator set that signs
+	// block h (prior[h].lastValidators) is the DRIVER's record: the set the node showed as Validators while it was
+	// at height h, not what the node's state calls LastValidators afterwards; histBad collects the heights at which
+	// the two differ.
+	priors    map[int]map[int64]prior
+	hist      *history
+	histFired int
+	histBad   []problem
 }
 
 type sentMsg struct {
@@ -30,7 +36,7 @@ type sentMsg struct {
 	m    csim.Msg
 }
 
-func newWorld(powers []int64, byz []int) (*world, error) {
+func newWorld(powers []int64, byz []int, hist *history) (*world, error) {
 	dir, err := ioutil.TempDir("", "bv-")
 	if err != nil {
 		return nil, err
@@ -41,6 +47,9 @@ func newWorld(powers []int64, byz []int) (*world, error) {
 		return nil, err
 	}
 	w := &world{s: s, dir: dir, priors: map[int]map[int64]prior{}}
+	if hist.active() {
+		w.install(hist)
+	}
 	s.Start()
 	w.snapshot()
 	return w, nil
@@ -60,8 +69,20 @@ func (w *world) snapshot() {
 		if w.priors[i] == nil {
 			w.priors[i] = map[int64]prior{}
 		}
-		if _, ok := w.priors[i][st.LastBlockHeight]; !ok {
-			w.priors[i][st.LastBlockHeight] = priorOf(st)
+		h := st.LastBlockHeight
+		if _, ok := w.priors[i][h]; !ok {
+			p := priorOf(st)
+			if prev, ok := w.priors[i][h-1]; ok && h > 0 {
+				// the set that signs block h is the one that was in force at height h
+				if !sameSet(st.LastValidators, prev.validators) {
+					w.histBad = append(w.histBad, problem{"last-validators-history", fmt.Sprintf(
+						"node %d after block %d: state.LastValidators (hash %X, total power %d, %d validators) is not the validator set of height %d (hash %X, total power %d, %d validators)",
+						i, h, st.LastValidators.Hash(), st.LastValidators.TotalVotingPower(), st.LastValidators.Size(), h,
+						prev.validators.Hash(), prev.validators.TotalVotingPower(), prev.validators.Size())})
+				}
+				p.lastValidators = prev.validators.Copy()
+			}
+			w.priors[i][h] = p
 		}
 	}
 }
